@@ -64,6 +64,9 @@ func main() {
 				fmt.Fprintln(os.Stderr, "unknown op", c.Op)
 				os.Exit(2)
 			}
+			if os.Getenv("VERIF_MARK") != "" {
+				fmt.Fprintf(os.Stderr, "\nCASE %s\n", c.ID)
+			}
 			out := safeRun(def, c.In)
 			e.emit(c.Op, c.ID, c.In, out)
 			e.flush()
